@@ -1365,11 +1365,10 @@ def verdict(case, out, ex, nobind_err=None):
 
 def dup_positional_keyword(case):
     """names of (non-private) positional-or-keyword parameters that the call binds positionally AND gives again under
-    their own name — Python: TypeError "got multiple values for argument".  (A duplicate under an alias / another letter
-    case is a different keyword for Python itself: with **kwargs the undecorated function binds it there; the property
-    is silent on it.)"""
+    a keyword spelling the parameter accepts — the normalised call passes one parameter twice, which Python refuses
+    ("got multiple values for argument")"""
     pos = [p for p in case["params"] if p["kind"] in ("po", "pk")]
-    keys = {k for k, _ in case["kwargs"]}
+    keys = {k for k, _ in normalise_kwargs(case)}
     out = []
     for i, p in enumerate(pos[:len(case["args"])]):
         if p["kind"] == "pk" and not is_private(p["name"]) and p["name"] in keys and not (i == 0 and guessed_self(case)):
@@ -1388,6 +1387,8 @@ def spec_bind(case, out):
         # a method of a class decorated as a whole, called with a first argument that is not an instance: that
         # parameter (implicitly typed by the class) fails — ParseError, the body does not run
         o = fold(case, out)
+        if dup_positional_keyword(case) and not o["body"] and o.get("err") == "TypeError":
+            return None      # the duplicate check of parse_params (Python's TypeError) comes before the instance check
         if o["body"] or o.get("err") != "ParseError":
             return f"first argument 5 is not an instance of the decorated class: expected ParseError without the body, got err={o.get('err')} body={o['body']}"
         return None
@@ -1399,15 +1400,6 @@ def classify_bind(case, out, agree=True, dfs=False):
     implementation did exactly what the model (which mirrors the documented design) predicts — whatever error kind or
     binding that is under the case's Options.  A disagreement between model and implementation is never classified."""
     if not agree:
-        return None
-    if dup_positional_keyword(case) and out.get("body"):
-        # the keyword of a parameter already bound positionally: data-first skips it as "already parsed" (with or without
-        # **kwargs); field-first hands it to **kwargs (raw TypeError, as Python) but without **kwargs ignores it like any
-        # key it cannot place
-        if dfs:
-            return "dup-positional-keyword-data-first"
-        if not any(p["kind"] == "vk" for p in case["params"]):
-            return "dup-positional-keyword-no-kwargs"
         return None
     if guessed_self(case) and not case["args"]:
         # the bare first parameter was taken for `self`: it is not a field, so a different-case spelling of its name does
